@@ -344,6 +344,7 @@ static iwrc open_store(const char *p, int trunc) {
 static void classify_locks(void) {
   uint8_t *mm;
   pe_store = &kv->rwl; pe_wk = &kv->wk_mtx; pe_exf = pe_fsm = 0;
+  pthread_rwlock_rdlock(&kv->rwl);
   pe_probe = 1; pe_nprobe = 0;
   if (!kv->fsm.acquire_mmap(&kv->fsm, 0, &mm, 0)) kv->fsm.release_mmap(&kv->fsm);
   if (pe_nprobe) pe_exf = pe_probe_seen[0];
@@ -352,6 +353,7 @@ static void classify_locks(void) {
   kv->fsm.state(&kv->fsm, &st);
   for (int i = 0; i < pe_nprobe; ++i) if (pe_probe_seen[i] != pe_exf) { pe_fsm = pe_probe_seen[i]; break; }
   pe_probe = 0;
+  pthread_rwlock_unlock(&kv->rwl);
   if (kv->dlsnr) { pe_wal_lo = (const char*) kv->dlsnr; pe_wal_hi = pe_wal_lo + malloc_usable_size(kv->dlsnr); }
   else pe_wal_lo = pe_wal_hi = 0;
 }
@@ -368,13 +370,17 @@ static void dump_all(const char *tag) {
 
 // the mapping at rest must equal what the file and the log say: a snapshot of the mapping is compared with the mapping
 // after a checkpoint (log applied to the file, private mapping replaced).  WAL mode only.
+// The library's own checkpoint thread (woken e.g. by the end of a backup) replaces the mapping under the exclusive store lock
+// WITHOUT the file lock: whoever looks at the mapping from outside the API must hold the store lock as every API call does.
 static uint8_t* map_snapshot(size_t *n) {
   uint8_t *mm; size_t sp = 0;
   *n = 0;
-  if (kv->fsm.acquire_mmap(&kv->fsm, 0, &mm, &sp)) return 0;
+  pthread_rwlock_rdlock(&kv->rwl);
+  if (kv->fsm.acquire_mmap(&kv->fsm, 0, &mm, &sp)) { pthread_rwlock_unlock(&kv->rwl); return 0; }
   uint8_t *b = malloc(sp + 1);
   memcpy(b, mm, sp);
   kv->fsm.release_mmap(&kv->fsm);
+  pthread_rwlock_unlock(&kv->rwl);
   *n = sp;
   return b;
 }
@@ -446,7 +452,9 @@ static int one_run(int k) {
     IWFS_FSM_STATE s2; long na = 0;
     iwkv_state(kv, &s2);
     off_t bs = (off_t) s2.block_size;
+    pthread_rwlock_rdlock(&kv->rwl);    // see map_snapshot
     for (off_t a = 0; bs > 0 && a + bs <= s2.exfile.fsize; a += bs) if (!kv->fsm.check_allocation_status(&kv->fsm, a, bs, true)) ++na;
+    pthread_rwlock_unlock(&kv->rwl);
     printf("ALLOC %ld\n", na);
   }
   map_check(k);
